@@ -114,6 +114,8 @@ TWO = [
     ("merge_float_int", lambda a, b, lib: a.assign(kf=a.k.astype("float64")).merge(b, left_on="kf", right_on="k", how="inner"), 0, 0),
     ("concat0", lambda a, b, lib: _concat(lib, [a, b]), 0, 1), ("concat0_inner", lambda a, b, lib: _concat(lib, [a[["f", "g", "rid"]], b[["g", "rid", "k"]]], join="inner"), 0, 1),
     ("concat1", lambda a, b, lib: _concat(lib, [a[["f"]], b[["g"]]], axis=1), 0, 1, "known"),
+    ("concat0_cat_extra", lambda a, b, lib: _concat(lib, [a[["i", "c"]], b[["i", "k"]]]), 0, 1),
+    ("concat0_extra", lambda a, b, lib: _concat(lib, [a[["i", "s"]], b[["i", "k"]]]), 0, 1),
     ("add_aligned", lambda a, b, lib: a.f + b.g, 0, 1, "known"), ("sub_frame", lambda a, b, lib: a[["f", "g"]] - b[["g", "i"]], 0, 1, "known"),
     ("where_other", lambda a, b, lib: a.g.where(b.g > 1, -1.0), 0, 1, "known_same_index"), ("fillna_series", lambda a, b, lib: a.f.fillna(b.g), 0, 1, "known_same_index"),
     ("assign_other", lambda a, b, lib: a.assign(y=b.g), 0, 1, "known"), ("filter_other", lambda a, b, lib: a[b.g > 1], 0, 1, "known_same_index"),
@@ -344,7 +346,9 @@ def run_prog(case):
     if d:
         rec["status"] = "violation"
         rec["viol"] = dict(d, oracle="pandas_program", ops=programs.program_ops(prog), src=programs.program_source(prog), shuffle=method,
-                           classes=progcase.plan_classes(b.out_dx.expr), first_diff_got_nan=("~na" in str(d.get("got", "")) and "~na" not in str(d.get("exp", ""))))
+                           classes=progcase.plan_classes(b.out_dx.expr), first_diff_got_nan=("~na" in str(d.get("got", "")) and "~na" not in str(d.get("exp", ""))),
+                           missing_labels_only=(d.get("symptom") == "column-labels" and isinstance(d.get("got"), list) and [c for c in d["exp"] if c in d["got"]] == d["got"] and len(d["got"]) < len(d["exp"])),
+                           has_categorical=any(isinstance(getattr(v_.pd, "dtypes", None), pd.Series) and any(isinstance(t_, pd.CategoricalDtype) for t_ in v_.pd.dtypes) for v_ in b.pd_vals))
         rec["case"] = {"kind": "prog", "prog": prog}
     if case.get("gen") and case["gen"][1] == 2:
         rec["sample"] = {"program": programs.program_source(prog)}
